@@ -279,7 +279,7 @@ def install_models(reg):
         if not isinstance(mode, str):
             raise OutOfSubset("open() with a symbolic mode")
         may_fail(it, "open")
-        f = VObj("File", {"name": p, "mode": VStr(mode)})
+        f = VObj("File", {"name": p, "mode": VStr(mode), "_written": VStr(b"")})    # _written: ghost, bytes written through f
         if any(ch in mode for ch in "wax+"):
             fs = fs_of(it)
             it.ctx.assume(z3.Not(fs.fields["isdir"].z[p.z]))      # open() of a directory always fails
@@ -300,7 +300,7 @@ def install_models(reg):
     em["os.statvfs"] = statvfs
 
     def spooled(it, args, kw):
-        return VObj("SpooledTemporaryFile", {})
+        return VObj("SpooledTemporaryFile", {"_written": VStr(b"")})
 
     em["tempfile.SpooledTemporaryFile"] = spooled
 
@@ -585,6 +585,7 @@ CONTRACTS = [
              modifies=["abs_destname", "xfersize"] + FS_FIELDS,
              ensures=dest_clauses("self.abs_destname", FNAME, strict=True) + [
                  ("the-returned-file-is-destination-dot-tmp", "result.name == self.abs_destname + '.tmp'"),
+                 ("nothing-written-to-it-yet", "result._written == b''"),
                  ("an-existing-directory-is-never-the-destination", "not (self.abs_destname in old(self._fs.isdir))"),
                  ("directories-untouched", "self._fs.isdir == old(self._fs.isdir)")],
              internal_ensures=[
@@ -602,6 +603,7 @@ CONTRACTS = [
              ensures=dest_clauses("self.abs_destname", DNAME, strict=True) + [
                  ("an-existing-directory-is-never-the-destination", "not (self.abs_destname in old(self._fs.isdir))"),
                  ("destination-is-absolute-normalised-without-trailing-separator", DEST_NORMAL),
+                 ("nothing-written-to-the-spool-yet", "result._written == b''"),
                  ("directories-untouched", "self._fs.isdir == old(self._fs.isdir)")],
              internal_ensures=[
                  remove_rule("self.abs_destname"),
@@ -681,8 +683,9 @@ def regf(modular=False):
     reg.class_fields["Args"] = {"cwd": "str", "output_file": "opt[str]", "accept_file": "bool", "hide_progress": "bool",
                                 "stderr": "obj[Stream]", "stdout": "obj[Stream]", "timing": "obj[Timing]"}
     reg.class_fields["Receiver"] = {"args": "obj[Args]", "_fs": "obj[GhostFS]", "abs_destname": "str", "xfersize": "json"}
-    reg.class_fields["File"] = {"name": "str"}
+    reg.class_fields["File"] = {"name": "str", "_written": "bytes"}
     reg.class_fields["ZipFile"] = {"_infos": "seq[nt[ZipInfo]]"}
+    reg.class_fields["SpooledTemporaryFile"] = {"_written": "bytes"}
     for c in CONTRACTS:
         # the small helpers are *inlined* at their call sites inside Receiver (their filesystem events must be seen
         # by the caller's clauses); each is still verified on its own against its own contract.  The lemmas use
